@@ -108,13 +108,27 @@ impl Core {
         self.ctx.as_ref().unwrap()
     }
 
-    /// apply one op line; `None` = not a core op / malformed
+    /// apply one op line; `None` = not a core op / malformed. A panic anywhere below (building
+    /// the context, looking up a list, ...) is an answer, not the end of the run.
     pub fn apply(&mut self, line: &str) -> Option<String> {
+        match std::panic::catch_unwind(std::panic::AssertUnwindSafe(|| self.apply_inner(line))) {
+            Ok(r) => r,
+            Err(_) => {
+                self.ctx = None;
+                Some("panic".into())
+            }
+        }
+    }
+
+    fn apply_inner(&mut self, line: &str) -> Option<String> {
         let w: Vec<&str> = line.split(' ').filter(|x| !x.is_empty()).collect();
         match *w.first()? {
             "scheme" => {
                 let spec = parse_scheme_line(&w)?;
-                self.scheme = core::no_panic(|| spec.build())?;
+                self.scheme = match core::no_panic(|| spec.build()) {
+                    Some(s) => s,
+                    None => return Some("panic".into()),
+                };
                 self.ctxspec = CtxSpec { values: vec![None; spec.fields.len()], sets: vec![] };
                 self.spec = spec;
                 self.ctx = None;
@@ -134,7 +148,10 @@ impl Core {
                 match *w.get(1)? {
                     "clear" if w.len() == 2 => {
                         let live = self.ctx.as_mut().unwrap();
-                        core::no_panic(std::panic::AssertUnwindSafe(|| live.clear()))?;
+                        if core::no_panic(std::panic::AssertUnwindSafe(|| live.clear())).is_none() {
+                            self.ctx = None;
+                            return Some("panic".into());
+                        }
                         self.ctxspec = CtxSpec { values: vec![None; spec.fields.len()], sets: vec![] };
                         Some("ok".into())
                     }
@@ -156,7 +173,10 @@ impl Core {
                                 }
                             }
                         }));
-                        r?;
+                        if r.is_none() {
+                            self.ctx = None;
+                            return Some("panic".into());
+                        }
                         for (i, v) in add.values.into_iter().enumerate() {
                             if v.is_some() {
                                 self.ctxspec.values[i] = v;
